@@ -23,7 +23,39 @@ N = {"quick": 800, "thorough": 24000}
 
 def classify(spec, problems):
     from .. import kf
-    return mcommon.kf6(spec, problems) or kf.classify_name_error(spec, problems)
+    return mcommon.kf6(spec, problems) or kf.classify_name_error(spec, problems) or \
+        kf13(spec, problems)
+
+
+def kf13(spec, problems):
+    """KF-13: Hardware keeps ONE component per NAME across all configurations (the last one
+    built wins).  Explains a component time only if a later configuration declares a
+    component of the same name and the observed time is exactly what that namesake's instance
+    count / bandwidth would give."""
+    arch = timemodel.arch_table(spec.yaml())
+    facts = {f["einsum"]: f for f in timemodel.einsum_facts(spec)}
+    names = list(arch)
+    if len(names) < 2:
+        return None
+    seen = False
+    for p in problems:
+        if p.get("kind") == "total-time-is-not-the-rollup":
+            continue            # judged from the time entries present, cannot be wrong alone
+        if p.get("kind") != "component-time":
+            return None
+        c, e = p["component"], p["einsum"]
+        mine = facts[e]["config"]
+        last = [n for n in names if c in arch[n]["components"]][-1]
+        if last == mine:
+            return None
+        other = arch[last]["components"][c]
+        mem = other["class"] in ("dram", "buffet", "cache")
+        rate = other["bandwidth"] if mem else arch[mine]["freq"]
+        want = p["count"] / (rate * other["inst"])
+        if abs(p["got"] - want) > 1e-12 * max(1.0, abs(want)):
+            return None
+        seen = True
+    return "KF-13" if seen else None
 
 
 def run_one(st, spec, cs):
